@@ -225,7 +225,13 @@ func (g *G) ErrWrapItem() Item {
 			case "?:":
 				// no value to default: not generated
 			default:
-				bx = append(bx, c.call+op)
+				xcall := c.call + op
+				if g.Chance(50, "cmdstyle") { // command style: e0! "g1", true
+					i := strings.Index(c.call, "(")
+					xcall = c.call[:i] + op + " " + strings.TrimSuffix(c.call[i+1:], ")")
+					labels = append(labels, "command-style")
+				}
+				bx = append(bx, xcall)
 				bg = append(bg, fmt.Sprintf("if err := %s; err != nil {\n\t%s\n}", c.call, onErr))
 			}
 			return
@@ -333,10 +339,32 @@ func (g *G) ErrWrapItem() Item {
 		callX += "which(err))\nflush(false)"
 	default:
 		// `!` and `?:` work anywhere: run inside a function literal with a recover
-		body := func(stmts []string) string {
-			return fmt.Sprintf("func %s() {\n\tdefer func() {\n\t\tfmt.Println(\"  recovered\", whichR(recover()))\n\t}()\n%s\n%s\n%s\n}", id, indent(pre), indent(strings.Join(stmts, "\n")), indent(state))
+		inLambda := g.Chance(35, "in-overloaded-lambda")
+		if inLambda && op == "!" {
+			// a command-style wrap as the lambda's last statement, both outcomes
+			f := g.Chance(50, "lastfail")
+			tag := g.Tag()
+			bx = append(bx, fmt.Sprintf("e0! %q, %v", tag, f))
+			bg = append(bg, fmt.Sprintf("if err := e0(%q, %v); err != nil {\n\tpanic(err)\n}", tag, f))
+			labels = append(labels, "command-style")
 		}
-		declX, declG = body(bx), body(bg)
+		body := func(stmts []string, xgo bool) string {
+			inner := strings.Join(stmts, "\n")
+			if inLambda {
+				// the statements run inside a lambda passed to an overloaded function whose first
+				// candidate does not match the first argument (the compiler has to try the next one)
+				if xgo {
+					inner = "onEvt \"evt\", v => {\n\t_ = v\n" + indent(inner) + "\n}"
+				} else {
+					inner = "onEvtS(\"evt\", func(v string) {\n\t_ = v\n" + indent(inner) + "\n})"
+				}
+			}
+			return fmt.Sprintf("func %s() {\n\tdefer func() {\n\t\tfmt.Println(\"  recovered\", whichR(recover()))\n\t}()\n%s\n%s\n%s\n}", id, indent(pre), indent(inner), indent(state))
+		}
+		if inLambda {
+			labels = append(labels, "inside-lambda-of-overloaded-call")
+		}
+		declX, declG = body(bx, true), body(bg, false)
 		callX = id + "()\nflush(false)"
 	}
 	key := "errwrap/" + op + "/" + strings.Join(bx, ";")
@@ -345,8 +373,18 @@ func (g *G) ErrWrapItem() Item {
 }
 
 // ErrWrapProgram draws a program of n items of the C03 family.
+const evtFuncs = `
+func onEvtI(k int, f func(int)) {
+	f(k)
+}
+
+func onEvtS(k string, f func(string)) {
+	f(k)
+}
+`
+
 func ErrWrapProgram(g *G, n int) *Program {
-	p := &Program{DeclsX: []string{ErrWrapDecls}, DeclsG: []string{ErrWrapDecls}}
+	p := &Program{DeclsX: []string{ErrWrapDecls, evtFuncs, "func onEvt = (\n\tonEvtI\n\tonEvtS\n)\n"}, DeclsG: []string{ErrWrapDecls, evtFuncs}}
 	for i := 0; i < n; i++ {
 		p.Items = append(p.Items, g.ErrWrapItem())
 	}
